@@ -1,5 +1,31 @@
 import KrroodVerif.Sexp
+import KrroodVerif.Model.Json
+import KrroodVerif.Drive.JsonIO
+/-!
+C18 driver. Case: `(rt (env …) VALUE)`.
+`model=` : `fromJson Quirks.current env (toJson v)` printed canonically `;tags=` the `__json_type__` entries of `toJson v`
+`spec=`  : the value itself `;tags=` the fully qualified name of the class of every object (C18_roundtrip, C18_tag).
+A value that is not well-formed (`wf`) or an environment that does not list a consulted name is refused: the
+harness only builds values of the property's grammar.
+-/
 namespace KrroodVerif.Drive.C18
-/-- stub: replaced when the model for C18 is built -/
-def run (_ : Sexp) : String := "model=unimplemented\tspec=unimplemented\ttrig="
+open KrroodVerif.Json KrroodVerif.Drive.JsonIO
+
+def run (s : Sexp) : String :=
+  match s with
+  | .list [.atom "rt", e, v] =>
+    match parseEnv e, parseVal v with
+    | some d, some v =>
+      if !(valClasses v).all (fun c => d.covers c.module c.name) then "error=env-miss"
+      else
+        let env := d.toEnv
+        if !wf env v then "error=not-wf"
+        else
+          let j := toJson v
+          let m := showResult (fromJson Quirks.current env j) ++ ";tags=" ++ showTags (jsonTags j)
+          let mf := showResult (fromJson Quirks.none env j) ++ ";tags=" ++ showTags (jsonTags j)
+          let sp := showVal v ++ ";tags=" ++ showTags (valueTags v)
+          s!"model={m}\tmodel_fixed={mf}\tspec={sp}\ttrig="
+    | _, _ => "error=bad-case"
+  | _ => "error=bad-case"
 end KrroodVerif.Drive.C18
